@@ -30,8 +30,8 @@ func init() {
 			"for up to 3 concurrent flows; deployments: http/https root, redirect/POST request binding, default/custom RelayStateFunc, RSA/ECDSA keys. quick: seeded random histories (length <= 30) plus all faithful interleavings of up to 3 flows; thorough: many more. " +
 			"An online monitor judges every ACS reply: session cookie set => authentic unexpired tracking cookie of the answered flow was presented (I1), 302 to the URL recorded in the authentic cookie named by RelayState or the default when absent (I2), that cookie cleared (I3), cookie flags (I4), refusals are 403 without session cookie (I5), faithful deliveries inside the lifetimes complete at their own URL and the session then admits the protected page with the user's attributes (I6). Non-trivial = history with >=1 delivery that reached assertion validation; distinct by history action string.",
 		Assumptions: []string{"IdP answers are produced by the signing oracle (library IdP<->SP interplay is C07's subject) so that a fresh answer can be given to an old request", "instants within 1 s of a lifetime boundary are not judged"},
-		FloorQuick:  1500,
-		FloorThor:   30000,
+		FloorQuick:  350,
+		FloorThor:   1500,
 		Run:         runC17,
 		LevelText:   "A browser model, an adversarial deliverer and a ledger of minted tracking cookies drive multi-flow histories through the real middleware; every reply is judged online against invariants I1-I6 computed from the ledger (not from the middleware's own decoding). Held-on-observed.",
 		LevelNote:   "Trusts net/http cookie parsing, the browser jar model and x/net/html for reading POST-binding pages.",
